@@ -197,6 +197,39 @@ fn kzg_family(c: &mut Ctx, sonic: bool, max_h: usize) {
     };
     c.events.push(json!({"ev": "commit", "scheme": name, "nv": 0, "sup": 5, "polys": [json!({"h": -1, "bounded": false})],
         "start": 0, "n": n, "state_is_samples": true, "blind_ok": true, "state_empty": empty}));
+    // degenerate polynomials are blinded like any other: the ZERO polynomial and a constant, hiding bound 1
+    for (k, coeffs) in [vec![], vec![F::from(5u64)]].into_iter().enumerate() {
+        use ark_poly::DenseUVPolynomial;
+        c.events.push(json!({"ev": "reset"}));
+        let mut rng = LogRng::new(88 + k as u64);
+        let p = LabeledPolynomial::new("p01".to_string(), UniPoly::<F>::from_coefficients_vec(coeffs), None, Some(1));
+        let p0 = LabeledPolynomial::new("p01".to_string(), p.polynomial().clone(), None, None);
+        let (n, samples_ok, blind_ok) = if sonic {
+            let (ck, _) = SonicPC::trim(&pp, 5, 2, None).unwrap();
+            let (c1, st) = SonicPC::commit(&ck, std::iter::once(&p), Some(&mut rng as &mut dyn RngCore)).unwrap();
+            let (c0, _) = SonicPC::commit(&ck, std::iter::once(&p0), None).unwrap();
+            let smp: Vec<F> = samples(&rng.bytes);
+            let mut acc = <E as Pairing>::G1::zero();
+            for (i, r) in st[0].blinding_polynomial.coeffs.iter().enumerate() {
+                acc += ck.powers_of_gamma_g[i].into_group() * r;
+            }
+            (smp.len(), drawn_from(&st[0].blinding_polynomial.coeffs, &smp) && st[0].blinding_polynomial.coeffs.len() >= 3,
+             c1[0].commitment().0.into_group() - c0[0].commitment().0.into_group() == acc)
+        } else {
+            let (ck, _) = MarlinPC::trim(&pp, 5, 2, None).unwrap();
+            let (c1, st) = MarlinPC::commit(&ck, std::iter::once(&p), Some(&mut rng as &mut dyn RngCore)).unwrap();
+            let (c0, _) = MarlinPC::commit(&ck, std::iter::once(&p0), None).unwrap();
+            let smp: Vec<F> = samples(&rng.bytes);
+            let mut acc = <E as Pairing>::G1::zero();
+            for (i, r) in st[0].rand.blinding_polynomial.coeffs.iter().enumerate() {
+                acc += ck.powers_of_gamma_g[i].into_group() * r;
+            }
+            (smp.len(), drawn_from(&st[0].rand.blinding_polynomial.coeffs, &smp) && st[0].rand.blinding_polynomial.coeffs.len() >= 3,
+             c1[0].commitment().comm.0.into_group() - c0[0].commitment().comm.0.into_group() == acc)
+        };
+        c.events.push(json!({"ev": "commit", "scheme": name, "nv": 0, "sup": 5, "polys": [json!({"h": 1, "bounded": false})],
+            "start": 0, "n": n, "state_is_samples": samples_ok, "blind_ok": blind_ok, "state_empty": false}));
+    }
 }
 
 fn pst13(c: &mut Ctx, max_h: usize) {
